@@ -6,3 +6,5 @@ CONSTANTS
   MaxN = 3
   MaxM = 0
   MaxF = 0
+  LemmaRuns = 0
+  LemmaV = 0
